@@ -7,6 +7,8 @@ label; every write (subscript store, in-place operator, mutating method,
 storage with a labelled object is an A-mut candidate; every returned array or
 list that may share storage with a labelled object is an A-ret candidate.
 """
+import ast
+
 from .. import specs, model
 from ..engine import collect
 from ..values import AV
@@ -149,7 +151,29 @@ def _check_run(rep, fn, run):
                 rep.ok('A-mut', s.where, s.construct, detail='fresh target')
     # --- returns
     bad = False
-    for rv in run.returns:
+    rnodes = list(run.return_nodes) + [None] * len(run.returns)
+    for rv, rnode in zip(run.returns, rnodes):
+        if q == 'core.core_stab' and rnode is not None:
+            # the pass-through is documented for the below-threshold branch
+            from .. import paths as _paths
+            gs = _paths.guards_of(fn.node, rnode)
+            under_thr = any(pol and any(isinstance(x, ast.Name) and
+                                        x.id == 'thr' for x in ast.walk(t))
+                            for t, pol in gs)
+            if not under_thr:
+                for path, l in returned_labels(rv):
+                    if param_of(l) is not None:
+                        bad = True
+                        rep.violation(
+                            'A-ret', q, 'return value may share storage with '
+                            'argument "%s" outside the below-threshold branch'
+                            % param_of(l),
+                            'core_stab may hand back its argument only when '
+                            'the largest modulus is below the threshold; this '
+                            'return path (%s) aliases it otherwise'
+                            % run.tag(), line=rnode.lineno,
+                            file=fn.module.path)
+            continue
         for path, l in returned_labels(rv):
             p = param_of(l)
             if p is None:
